@@ -44,6 +44,8 @@ class C06Runner(hh.Runner):
             subs = op[1] if op[0] == "batch" else [op]
             mm = dict(m)
             for o in subs:
+                if o[0] in ("sp", "badset", "fail"):
+                    continue
                 k = bytes.fromhex(o[1])
                 if o[0] == "set":
                     if mm.get(k) == bytes.fromhex(o[2]):
@@ -73,7 +75,11 @@ def run_shard(ctx):
     n = 1000 if ctx.tier == "quick" else 6000
     maxops = 25 if ctx.tier == "quick" else 100
     for i in range(n):
-        case = hh.gen_history(rnd, rnd.randint(1, maxops), prune=True, batch_p=0.3)
+        if i % 25 == 24:
+            case = hh.gen_bulk_history(rnd, ctx.tier, prune=True)
+            ctx.count("bulk_histories")
+        else:
+            case = hh.gen_history(rnd, rnd.randint(1, maxops), prune=True, batch_p=0.3, sp_p=0.08, bad_p=0.04)
         if i < 2:
             ctx.sample(case)
         run_case_guarded(mod, case, ctx)
